@@ -19,7 +19,7 @@ def _guard_monitor(fn, pid):
     def run(pr):
         try:
             return fn(pr)
-        except Exception as e:      # noqa
+        except (Exception, SystemExit) as e:      # noqa  (argparse inside propka ends with SystemExit)
             tb = traceback.extract_tb(e.__traceback__)
             root = os.path.realpath(REPO) + os.sep
             if not tb or not os.path.realpath(tb[-1].filename).startswith(root):
@@ -70,7 +70,7 @@ def main():
         if hasattr(mod, 'bounded'):
             mod.bounded = _guard_monitor(mod.bounded, a.prop)
         mod.run(pr, repo)
-    except Exception:
+    except (Exception, SystemExit):
         traceback.print_exc()
         print('CHECKER-CRASH property=%s' % a.prop)
         return 3
